@@ -506,6 +506,14 @@ func callSSA(i *interpreter, caller *frame, callpos token.Pos, fn *ssa.Function,
 		if skipInits[full] {
 			return nil
 		}
+		if strings.HasPrefix(name, "file_") && strings.HasSuffix(name, "_proto_init") {
+			return nil // protobuf descriptor registration (reflection only)
+		}
+		if fn.Signature.Recv() != nil {
+			if ext := i.pbMethod(fn); ext != nil {
+				return ext(fr, args)
+			}
+		}
 		if fn.Blocks == nil {
 			if fn.Name() == "init" || strings.HasPrefix(fn.Name(), "init#") {
 				return nil // package initialiser of a body-less package
@@ -542,6 +550,23 @@ func callSSA(i *interpreter, caller *frame, callpos token.Pos, fn *ssa.Function,
 		runFrame(fr)
 	}
 	return fr.result
+}
+
+// pbMethod returns the model of a generated protobuf method (cached per function).
+func (i *interpreter) pbMethod(fn *ssa.Function) externalFn {
+	switch n := fn.Name(); {
+	case n == "Reset", n == "String", n == "ProtoMessage":
+	case fn.Blocks == nil && strings.HasPrefix(n, "Get"):
+	default:
+		return nil
+	}
+	if c, ok := i.sh.pbMethods.Load(fn); ok {
+		e, _ := c.(externalFn)
+		return e
+	}
+	e := pbMethodExternal(i, fn)
+	i.sh.pbMethods.Store(fn, e)
+	return e
 }
 
 func callerName(fr *frame) string {
